@@ -132,6 +132,8 @@ def rule_layout(ctx, rep):
                         from .. import inline
 
                         pointee = _arc_aggregate_pointee(F, inline.inlined(F, rb["key"]))  # handle built by a private constructor tail
+                    if pointee is None and "output" in rb:
+                        pointee = inner_of_nonnull(F, rb["output"])  # an allocation helper that returns the typed block pointer itself
                     if pointee is None:
                         rep.bad("R-LAYOUT", ik, "cannot determine the block type the allocation is handed out as", F.loc(rb), tag)
                         continue
